@@ -91,6 +91,45 @@ def e1e2(R, spec, cfg, tag, canon, exe, env, D, budget, walks, L, seed, timeout=
     return stats
 
 
+def sim_e2(R, spec, cfg, tag, canon, exe, env, num, depth, seed, workers=4, timeout=900):
+    """Constants too large to enumerate: TLC's simulation mode samples behaviours (monitors checked on every sampled state), each
+    sampled behaviour is replayed into the real code."""
+    import glob
+    d = vplib.rundir("sim." + tag)
+    res = vplib.tlc(spec, cfg, workers=workers, simulate=max(1, num // workers), depth=depth, timeout=timeout, seed=seed,
+                    metadir=os.path.join(d, "md"), simfile=os.path.join(d, "t"))
+    m = re.search(r"(\d+) states checked, (\d+) traces generated", res["out"])
+    res["generated"] = int(m.group(1)) if m else 0
+    res["distinct"] = 0
+    if res["rc"] == 124:
+        raise Broken("TLC simulation timeout: " + tag)
+    if res["violated"]:
+        rp = vplib.replay_path(R.prop, tag + ".tlc")
+        open(rp, "w").write(res["out"][-20000:])
+        R.add_tlc(res, tag)
+        R.mismatch(tag + ":model-" + res["violated"], rp, "TLC (simulation): %s violated" % res["violated"])
+        vplib.cleanup(d)
+        return None
+    if res["rc"] != 0:
+        raise Broken("TLC simulation failed (%s) rc=%s:\n%s" % (tag, res["rc"], res["out"][-3000:]))
+    states, edges, inits, progs = vplib.parse_sim_traces(sorted(glob.glob(os.path.join(d, "t_*"))))
+    res["distinct"] = len(states)
+    R.add_tlc(res, tag)
+    table = os.path.join(d, "graph.tab")
+    vplib.write_table(table, states, edges, inits, canon)
+    pf = os.path.join(d, "progs.txt")
+    with open(pf, "w") as f:
+        for p in progs:
+            f.write("\n".join(lab for lab, _ in p) + "\n--\n")
+    e = dict(env, GW_PROGS=pf, GW_WALL_S=str(int(timeout * 0.7)))
+    rdir = os.path.join(vplib.VERIF, "replays")
+    os.makedirs(rdir, exist_ok=True)
+    R.exhaustive = False
+    stats = run_driver(R, exe, [table, rdir, R.prop + "." + tag, 0, 0, 0, 0, seed], e, timeout, tag)
+    vplib.cleanup(d)
+    return stats
+
+
 def e3_validate(R, tracespec, cfg, trace, tag, timeout=900, heap="8g"):
     """TLC validates an ndjson trace recorded from the real code. Accepted iff the postcondition holds (every line
     consumed). On rejection the first unmatched line is reported with the matched prefix length."""
@@ -177,8 +216,14 @@ def c12(prop, tier, seed):
         tag = "Seqs_%s_%s" % (kind, suf)
         env = {"VP_KIND": kind, "VP_DTOR": str(dtor), "VP_CMP": str(cmp_)}
         return lambda: e1e2(R, "Seqs.tla", tag + ".cfg", tag, seqs_canon, exe, env, D, budget, walks, 24, seed, workers=2)
-    vplib.parallel([task(*v) for v in variants], max_workers=8)
-    R.rule = ("programs = edge sequences of the dumped TLC graph of Seqs.tla: all maximal paths of length <= %d from the "
+    def simtask(kind, suf, dtor, cmp_):
+        tag = "Seqs_%s_%s_big" % (kind, suf)
+        env = {"VP_KIND": kind, "VP_DTOR": str(dtor), "VP_CMP": str(cmp_)}
+        return lambda: sim_e2(R, "Seqs.tla", tag + ".cfg", tag + ".sim", seqs_canon, exe, env, 2000 if quick else 60000, 40 if quick else 80, seed)
+    sims = [("queue", "d", 1, 0), ("stack", "d", 1, 0), ("list", "dc", 1, 1), ("list", "ds", 1, 2), ("list", "dp", 1, 0)]
+    vplib.parallel([task(*v) for v in variants] + [simtask(*v) for v in sims], max_workers=8)
+    R.rule = ("(.sim: 6 elements / length 6, behaviours sampled by TLC's simulation mode and replayed) "
+              "programs = edge sequences of the dumped TLC graph of Seqs.tla: all maximal paths of length <= %d from the "
               "initial state (budget %d per config), an edge cover, and %d seeded random walks of length 24, per "
               "container kind x destructor x comparator; non-trivial = contains an iterator mutation "
               "(ItrRemove/ItrSet/ItrInsert) followed by a later non-iterator operation; distinct by action-label sequence"
@@ -268,8 +313,13 @@ def c11(prop, tier, seed):
         tag = "Bst_" + suf
         env = {"VP_DTOR": str(dtor), "VP_USERCMP": str(ucmp)}
         return lambda: e1e2(R, "Bst.tla", tag + ".cfg", tag, bst_canon(ucmp), exe, env, D, budget, walks, 30, seed, workers=4)
-    vplib.parallel([task("du", 1, 1), task("dp", 1, 0), task("nu", 0, 1), task("np", 0, 0)], max_workers=4)
-    R.rule = ("programs = edge sequences of the dumped TLC graph of Bst.tla (5 elements; user comparator with equal keys / "
+    def simtask(suf, dtor, ucmp):
+        tag = "Bst_%s_big" % suf
+        env = {"VP_DTOR": str(dtor), "VP_USERCMP": str(ucmp)}
+        return lambda: sim_e2(R, "Bst.tla", tag + ".cfg", tag + ".sim", bst_canon(ucmp), exe, env, 2000 if quick else 60000, 50 if quick else 100, seed)
+    vplib.parallel([task("du", 1, 1), task("dp", 1, 0), task("nu", 0, 1), task("np", 0, 0), simtask("du", 1, 1), simtask("np", 0, 0)], max_workers=6)
+    R.rule = ("(.sim: 8 elements, behaviours sampled by TLC's simulation mode and replayed, queries included as ordinary steps) "
+              "programs = edge sequences of the dumped TLC graph of Bst.tla (5 elements; user comparator with equal keys / "
               "default comparator on addresses 2^31 and 2^32 apart): all maximal paths of <= %d mutating steps with every "
               "query (find, in-order with early stop, pre/post-order shape consistency, iterator get) executed at every node, "
               "an edge cover, seeded random walks; non-trivial = a removal with >= 3 elements present followed by further "
@@ -399,8 +449,16 @@ def c06(prop, tier, seed):
                                                        walks, 60, seed, workers=2))
             if not quick or sz == "2x21":
                 tasks.append(lambda tag=tag: tlc_only(R, "ThpoolMC.tla", tag + "_live.cfg", tag + "_live", workers=2))
+    # 4 workers, 5 tasks, 2 submitters: too large to enumerate; complete schedules sampled by TLC's simulation mode
+    for fl in flavours:
+        tag = "Thpool_%s_4x32" % fl
+        env = {"VP_N": "4", "VP_SUBS": "3,2", "VP_LAZY": "1" if fl[0] == "l" else "0",
+               "VP_DETACHED": "1" if fl[1] == "d" else "0", "VP_WAITALL": "1" if fl[2] == "a" else "0"}
+        tasks.append(lambda tag=tag, env=env: sim_e2(R, "ThpoolMC.tla", tag + ".cfg", tag + ".sim", thpool_canon, exe, env,
+                                                     300 if quick else 20000, 600, seed, workers=2))
     vplib.parallel(tasks, max_workers=8)
-    R.rule = ("programs = complete schedules (paths from the initial to a terminal state) of the dumped TLC graph of Thpool.tla at "
+    R.rule = ("(.sim: 4 workers, 5 tasks, 2 submitters: complete schedules sampled by TLC's simulation mode and replayed) "
+              "programs = complete schedules (paths from the initial to a terminal state) of the dumped TLC graph of Thpool.tla at "
               "pthread-operation granularity, executed on the real thpool.c under a cooperative scheduler: depth-first enumeration "
               "(budget %d per config), an edge cover (every transition, incl. every spurious wake-up and every signal target) and %d "
               "random schedules, for 8 flavours (lazy/eager x detached/joinable x wait-all/current) x %d (threads, tasks, submitters) "
